@@ -85,9 +85,9 @@ static const cfg_t cfgs[] = {
     { "N1 ult key_set ballast values D7", 0, 1, U_ULT, API_KEY, 1, A_VALUES, 7, 1 },
     { "N2 ult self_set lazy narrow D8", 0, 2, U_ULT, API_SELF, 0, A_NARROW, 8, 0 },
     { "N4 task key_set ballast values D7", 0, 4, U_TASK, API_KEY, 1, A_VALUES, 7, 0 },
-    { "N8 ult key_set ballast keys D7", 0, 8, U_ULT, API_KEY, 1, A_KEYS, 7, 1 },
+    { "N8 ult key_set ballast keys D6", 0, 8, U_ULT, API_KEY, 1, A_KEYS, 6, 1 },
     { "default cb-ult self_set ballast life D8", 0, 0, U_ULT_CB, API_SELF, 1, A_LIFE, 8, 1 },
-    { "N16 ult key_set ballast narrow D8", 0, 16, U_ULT, API_KEY, 1, A_NARROW, 8, 0 },
+    { "N16 ult key_set ballast narrow D7", 0, 16, U_ULT, API_KEY, 1, A_NARROW, 7, 0 },
     { "N3(->4) unnamed-ult self_set ballast keys D6", 0, 3, U_ULT_UNNAMED, API_SELF, 1, A_KEYS, 6, 0 },
     { "N2 primary key_set ballast D6", 0, 2, U_PRIMARY, API_KEY, 1, A_PRIM, 6, 0 },
     { "N1 task self_set lazy life D8", 0, 1, U_TASK, API_SELF, 0, A_LIFE, 8, 1 },
